@@ -211,6 +211,8 @@ type Service struct {
 	queueGroup     string                 // Queue group to use with CharQueueSubscribe
 	resetResources []string               // List of resource name patterns used on system.reset for resources. Defaults to serviceName+">"
 	resetAccess    []string               // List of resource name patterns used system.reset for access. Defaults to serviceName+">"
+	ownedResources []string               // Resource patterns owned while serving; resolved from resetResources on each Serve
+	ownedAccess    []string               // Access patterns owned while serving; resolved from resetAccess on each Serve
 	queryTQ        *timerqueue.Queue      // Timer queue for query events duration
 	queryDuration  time.Duration          // Duration to listen for query requests on a query event
 	workerCount    int                    // Number of workers handling resource requests
@@ -800,9 +802,7 @@ func (s *Service) ResetAll() {
 	}
 	verifhook.Gate("publish-checked")
 
-	s.setDefaultOwnership()
-
-	s.reset(s.resetResources, s.resetAccess)
+	s.reset(s.ownedResources, s.ownedAccess)
 }
 
 // TokenEvent sends a connection token event that sets the connection's access
@@ -867,24 +867,29 @@ func (s *Service) TokenReset(subject string, tokenID ...string) {
 	})
 }
 
+// setDefaultOwnership resolves the patterns owned while serving from the
+// configured ones. It is called on each Serve, as the default depends on the
+// handlers registered at that time.
 func (s *Service) setDefaultOwnership() {
-	if s.resetResources == nil {
+	s.ownedResources = s.resetResources
+	if s.ownedResources == nil {
 		if s.Contains(func(h Handler) bool {
 			return h.Get != nil || len(h.Call) > 0 || len(h.Auth) > 0 || h.New != nil
 		}) {
-			s.resetResources = s.defaultOwnership()
+			s.ownedResources = s.defaultOwnership()
 		} else {
-			s.resetResources = []string{}
+			s.ownedResources = []string{}
 		}
 	}
 
-	if s.resetAccess == nil {
+	s.ownedAccess = s.resetAccess
+	if s.ownedAccess == nil {
 		if s.Contains(func(h Handler) bool {
 			return h.Access != nil
 		}) {
-			s.resetAccess = s.defaultOwnership()
+			s.ownedAccess = s.defaultOwnership()
 		} else {
-			s.resetAccess = []string{}
+			s.ownedAccess = []string{}
 		}
 	}
 }
@@ -902,13 +907,12 @@ func (s *Service) defaultOwnership() []string {
 // the patterns used for ResetAll.
 func (s *Service) subscribe() error {
 	var err error
-	s.setDefaultOwnership()
-	if len(s.resetResources) == 0 && len(s.resetAccess) == 0 {
+	if len(s.ownedResources) == 0 && len(s.ownedAccess) == 0 {
 		return errors.New("res: no resources to serve")
 	}
 	var patterns []string
 	for _, t := range []string{RequestTypeGet, RequestTypeCall, RequestTypeAuth} {
-		for _, p := range s.resetResources {
+		for _, p := range s.ownedResources {
 			pattern := t + "." + p
 			if pattern[len(pattern)-1] != '>' && t != RequestTypeGet {
 				pattern += ".*"
@@ -917,7 +921,7 @@ func (s *Service) subscribe() error {
 
 		}
 	}
-	for _, p := range s.resetAccess {
+	for _, p := range s.ownedAccess {
 		patterns = append(patterns, "access."+p)
 	}
 
